@@ -141,6 +141,7 @@ func checkC03(c *Ctx, r *Result, tier string) {
 
 	// ---- R03e -----------------------------------------------------------------------------------
 	checkErrorLoss(c, r, "R03e")
+	c03Stateless(c, r, gr)
 }
 
 func c03Pratt(c *Ctx, r *Result, gr *Grammar, M, A, C, N int64) {
@@ -553,4 +554,93 @@ func c03OperandErrors(c *Ctx, r *Result) {
 		})
 	}
 	r.Floor("R03d", n, 5)
+}
+
+// ---- R03f: operator runtimes are stateless -------------------------------------------------------
+
+// c03Stateless: the value of an operator node is a function of its operands' values only. A
+// necessary structural condition: the Eval of an operator runtime (and the helpers it calls
+// statically) writes neither the runtime component / AST node it belongs to nor package-level
+// state — otherwise the second evaluation of the same node (loop, function body) can depend on
+// the first.
+func c03Stateless(c *Ctx, r *Result, gr *Grammar) {
+	pt, err := ExtractProviders(c)
+	if err != nil {
+		r.Undecide("R03f: %v", err)
+		return
+	}
+	var kinds []string
+	for name, e := range gr.ByName {
+		if name != "" && (e.Ld == "ldInfix" || e.Nd == "ndPrefix") {
+			kinds = append(kinds, name)
+		}
+	}
+	sort.Strings(kinds)
+	n := 0
+	done := map[*types.Named]bool{}
+	for _, kind := range kinds {
+		rtT := pt.Kind2Type[kind]
+		if rtT == nil || done[rtT] {
+			continue
+		}
+		done[rtT] = true
+		eval := c.Method("interpreter", rtT.Obj().Name(), "Eval")
+		if eval == nil {
+			continue
+		}
+		n++
+		// Eval and its static callees in package interpreter (closures included)
+		set := map[*ssa.Function]bool{}
+		var order []*ssa.Function
+		var add func(fn *ssa.Function)
+		add = func(fn *ssa.Function) {
+			if fn == nil || set[fn] || len(fn.Blocks) == 0 || c.PkgOf(fn) != "interpreter" {
+				return
+			}
+			set[fn] = true
+			order = append(order, fn)
+			allInstrs(fn, func(in ssa.Instruction) {
+				switch x := in.(type) {
+				case *ssa.MakeClosure:
+					if cf, ok := x.Fn.(*ssa.Function); ok {
+						add(cf)
+					}
+				case ssa.CallInstruction:
+					if f := x.Common().StaticCallee(); f != nil && c.modFuncSet[f] {
+						add(f)
+					}
+				}
+			})
+		}
+		add(eval)
+		key := c.FuncKey(eval)
+		bad := ""
+		var badPos string
+		for _, fn := range order {
+			for _, w := range WritesOf(fn) {
+				stateful := false
+				switch w.Kind {
+				case WGlobal:
+					stateful = true
+				case WParam:
+					if !w.Direct && fn.Signature.Recv() != nil && len(fn.Params) > 0 && w.Root == ssa.Value(fn.Params[0]) {
+						stateful = true
+					}
+				}
+				if stateful && bad == "" {
+					bad = c.FuncKey(fn) + " writes " + accessPath(w.Target)
+					badPos = c.Pos(c.InstrPos(w.Instr))
+				}
+			}
+		}
+		site := key + "#stateless"
+		if bad != "" {
+			r.Instance("R03f", site, badPos, "finding", bad, true)
+			r.Report(Finding{Rule: "R03f", Site: site, Pos: badPos,
+				Msg: fmt.Sprintf("the runtime of operator `%s` keeps state between evaluations (%s): the value of the expression then depends on earlier evaluations of the same node, not only on its operands", kind, bad)})
+		} else {
+			r.Instance("R03f", site, c.Pos(eval.Pos()), "ok", fmt.Sprintf("Eval and its %d static helper(s) write neither the component nor package state", len(order)-1), true)
+		}
+	}
+	r.Floor("R03f", n, 15)
 }
